@@ -150,6 +150,15 @@ CLAIMED["C05"] = dict(cat="other", technique="step-structure analysis of the sim
         "proved under C06). That the stationary state satisfies the Haissinski relation is a numerical fixed point and is NOT decided.",
    note="One known finding shared with C10 (F6): on renormalising steps the wake is computed before the grid is rescaled.",
    ref="DESIGN.md §3 C05")
+CLAIMED["C11"] = dict(cat="other", technique="structural analysis of the HDF5 hyperslab selection and its size guard; freshness typestate at the loop head for every start kind; error-discipline analysis of the load path",
+   text="Decides the load path and the refusal discipline, not the equality of two runs: for each accepted rank the reader selects exactly record use_step (reduced modulo the record count) "
+        "with a one-record count and a memory space of the same extent, and reads into the grid only when the grid holds exactly the selected number of cells (otherwise throws), so exactly the "
+        "stored values land in the grid or nothing; after any kind of start main recomputes X projection, integral, Y projection and spread before the first step, and the projection the wake "
+        "needs is fresh at the loop head on every path; the final block equals the loop output block (C10/R2); the reader runs under try/catch(...), no handler rethrows, failure returns "
+        "nullptr, a multi-bunch record fails the size guard because the grid is sized for one bunch, and main null-tests, reports and returns before the first use. That a split run ends in the "
+        "same phase space as an uninterrupted one is a relation between two executions and is NOT decided.",
+   note="HDF5 C++ API argument order is part of the trusted base. The definite-assignment defect of ps_size for other ranks is reported under C17.",
+   ref="DESIGN.md §3 C11")
 NOT_YET = "check not built yet in this round (static rule designed in DESIGN.md §3, not implemented)"
 NA = {}
 
